@@ -261,7 +261,7 @@ var c17Kinds = []string{"empty", "random-bytes", "directory", "dangling-symlink"
 
 func c17Scenarios(cfg runCfg) []Scenario {
 	var out []Scenario
-	n := cfg.n(4000, 10)
+	n := cfg.n(4000, 25)
 	for i := 0; i < n; i++ {
 		if cfg.mine(i) {
 			fam := "dir"
